@@ -90,6 +90,8 @@ def cases(thorough):
             out.append(('In', (t,), k))
     if thorough:
         out.append(('In', ('Int32', 'Int64'), 2))    # list elements wider than the probe
+    for t in (['Int16', 'Int32', 'Int64'] if thorough else ['Int32']):
+        out.append(('If', (t,), 0))      # (the CASE kernel has integer arms only; a BOOLEAN CASE is an error, as under C14)
     return out
 
 
@@ -105,6 +107,11 @@ def run_case(task):
         if node == 'IsNull':
             obj = tree('IsNull', [probe])
             cand_rows = []
+        elif node == 'If':
+            cond, crow = sym_array('q', 'Bool', n)
+            els, erow = sym_array('e', tys[0], n)
+            obj = tree('If', [cond, probe, els])
+            cand_rows = [crow, erow]
         else:
             cands = []
             cand_rows = []
@@ -131,8 +138,9 @@ def run_case(task):
         except (AttributeError, IndexError) as ex:
             res['inconclusive'] = 'result is not an array: %r' % (o.value,)
             return res
-        if variant != 'Bool' or len(rows) != n:
-            res['obligations'].append({'kind': 'shape', 'verdict': 'sat', 'witness': None, 'expected': '%d BOOLEAN rows' % n})
+        want_variant = tys[0] if node == 'If' else 'Bool'
+        if variant != want_variant or len(rows) != n:
+            res['obligations'].append({'kind': 'shape', 'verdict': 'sat', 'witness': None, 'expected': '%d %s rows' % (n, want_variant)})
             continue
         claims = []
         for i in range(n):
@@ -140,6 +148,11 @@ def run_case(task):
             pr, pv = prow[i]
             if node == 'IsNull':
                 claims.append(And(valid, raw == Not(pv)))
+            elif node == 'If':
+                # CASE WHEN q THEN p ELSE e END: a NULL condition takes the ELSE branch
+                (qr, qv), (er, ev) = cand_rows[0][i], cand_rows[1][i]
+                take = And(qv, qr)
+                claims.append(And(valid == If(take, pv, ev), Or(Not(valid), raw == If(take, pr, er))))
             else:
                 acc = None
                 for r in cand_rows:
@@ -190,6 +203,8 @@ def replay(node, tys, w):
     setup = ['create table r(%s)' % ', '.join(cols)]
     for i in range(n):
         setup.append('insert into r values (%s)' % ', '.join([lit(w['probe'][i])] + [lit(c[i]) for c in w['candidates']]))
+    if node == 'If':
+        return replay_if(tys, w)
     expr = '(isnull $0.0)' if node == 'IsNull' else '(in $0.0 (list %s))' % ' '.join('$0.%d' % (j + 1) for j in range(k))
     plan = '(proj (list %s) (scan $0 (list %s) true))' % (expr, ' '.join('$0.%d' % j for j in range(k + 1)))
     out, rc, err = rl('planrun', {'setup': setup, 'plans': [plan]})
@@ -215,5 +230,29 @@ def replay(node, tys, w):
             exp.append(None)
         else:
             exp.append('false')
+    how['engine'], how['expected'] = got, exp
+    return {'reproduced': got != exp, 'how': how}
+
+
+def replay_if(tys, w):
+    n = len(w['probe'])
+    t = SQLT[tys[0]]
+    lit = lambda x: 'NULL' if x is None else (('true' if x else 'false') if isinstance(x, bool) else str(x))
+    setup = ['create table r(q boolean, p %s, e %s)' % (t, t)]
+    for i in range(n):
+        setup.append('insert into r values (%s, %s, %s)' % (lit(w['candidates'][0][i]), lit(w['probe'][i]), lit(w['candidates'][1][i])))
+    plan = '(proj (list (if $0.0 $0.1 $0.2)) (scan $0 (list $0.0 $0.1 $0.2) true))'
+    out, rc, err = rl('planrun', {'setup': setup, 'plans': [plan]})
+    res = [o for o in out if 'plan' in o]
+    how = {'setup': setup, 'plan': plan}
+    if not res or not res[0].get('ok') or res[0].get('panicked'):
+        how['engine'] = 'FAILS: %s' % ((res[0].get('err') if res else err[-200:]) or 'panic')
+        return {'reproduced': None, 'how': how}
+    got = [r[0] for r in res[0]['rows']]
+    exp = []
+    for i in range(n):
+        q = w['candidates'][0][i]
+        v = w['probe'][i] if q is True else w['candidates'][1][i]
+        exp.append(None if v is None else (('true' if v else 'false') if isinstance(v, bool) else str(v)))
     how['engine'], how['expected'] = got, exp
     return {'reproduced': got != exp, 'how': how}
